@@ -91,3 +91,27 @@ pub fn eager_echo_client(builder: ClientBuilder) -> Client {
 	let (tx_in, rx_in) = mpsc::unbounded_channel();
 	builder.build_with_tokio(EagerEchoSender(tx_in), MockReceiver(rx_in))
 }
+
+/// A transport whose `send` fails on the k-th message and whose `close` takes a while (as a real socket's does).
+pub struct FailingSender { pub inner: mpsc::UnboundedSender<String>, pub fail_at: usize, pub count: usize }
+impl TransportSenderT for FailingSender {
+	type Error = MockErr;
+	fn send(&mut self, msg: String) -> impl Future<Output = Result<(), Self::Error>> + Send {
+		self.count += 1;
+		let fail = self.count == self.fail_at;
+		let r = if fail { Err(MockErr("broken pipe".into())) } else { self.inner.send(msg).map_err(|_| MockErr("peer gone".into())) };
+		async move { r }
+	}
+	fn close(&mut self) -> impl Future<Output = Result<(), Self::Error>> + Send {
+		async move {
+			tokio::time::sleep(Duration::from_millis(50)).await;
+			Ok(())
+		}
+	}
+}
+pub fn failing_client(builder: ClientBuilder, fail_at: usize) -> (Client, Peer) {
+	let (tx_out, rx_out) = mpsc::unbounded_channel();
+	let (tx_in, rx_in) = mpsc::unbounded_channel();
+	let c = builder.build_with_tokio(FailingSender { inner: tx_out, fail_at, count: 0 }, MockReceiver(rx_in));
+	(c, Peer { from_client: rx_out, to_client: tx_in })
+}
